@@ -172,6 +172,43 @@ func fullStackRound(r *vk.Run, rng *rand.Rand, id int) {
 			time.Sleep(time.Millisecond)
 		}
 	}
+	if id%4 == 1 {
+		// no stop request for the aggregator: its execution layer fails, the production loop reports the error, and
+		// Run must wind the whole node down by itself (the node is built for "an unrecoverable error stops the node")
+		h0, _ := agg.fn.Store.Height(context.Background())
+		for i := 0; i < 50; i++ {
+			agg.exec.Script(world.ExecErr)
+		}
+		deadline := time.Now().Add(25 * time.Second)
+		returned, recovered := false, false
+		for time.Now().Before(deadline) && !returned && !recovered {
+			select {
+			case <-agg.done:
+				returned = true
+			case <-time.After(5 * time.Millisecond):
+				// a node that retries instead of stopping is fine too: it must then produce again once the failures are over
+				if h, _ := agg.fn.Store.Height(context.Background()); agg.exec.ScriptLen() == 0 && h > h0+1 {
+					recovered = true
+				}
+			}
+		}
+		switch {
+		case returned:
+			r.Hit("node-run-returns-after-fatal-loop-error")
+		case recovered:
+			r.Count("fullstack_node_survived_execution_errors_by_retrying", 1)
+		default:
+			close(stopInject)
+			r.Violation("stop-promptly", "the execution layer failed, and 25 s later Node.Run of the aggregator has neither returned nor does the node produce blocks again: it hangs in its own shutdown",
+				map[string]any{"full_stack_round": id, "goroutines_in_repo_code": goroutineDump()})
+			agg.cancel()
+			fulln.cancel()
+			return
+		}
+		if returned {
+			agg.done <- nil // (consumed again below)
+		}
+	}
 	close(stopInject)
 	// stop both at seeded instants, in either order
 	first, second := agg, fulln
